@@ -107,6 +107,7 @@ class Scheduler(object):
     self.pct_changes = []
     self.pct_low = -1
     self.inert = False
+    self._stamp = 0
     self.main = self._new_thread("main")
     self.main.state = "running"
     self.current = self.main
@@ -125,6 +126,12 @@ class Scheduler(object):
       # random priority among the existing ones (distinct, higher = runs)
       t.priority = 1 + self.S.choose("pct.prio", 1000)
     return t
+
+  def stamp(self):
+    """ Unique, totally ordered event sequence number (only one thread runs
+    at a time, so the order is the real order). """
+    self._stamp += 1
+    return self._stamp
 
   def count(self, name, n=1):
     self.counters[name] = self.counters.get(name, 0) + n
